@@ -21,6 +21,8 @@ import (
 //	reader: Delete(k) - the invalidation of v1
 //	caller B: Flight(k, cmd) must not be a hit with v1
 //
+// (also with the second fetch failing before the invalidation arrives: v1 is then legitimately served until it is invalidated)
+//
 // Variation: number of commands per key, which of them is in the window, whether A's fetch completes (with the newer
 // value v2) or is cancelled before B asks, per-key and flush invalidations.
 func storeWindow(run *mon.Run) {
@@ -31,7 +33,7 @@ func storeWindow(run *mon.Run) {
 		ncmds := 1 + rng.Intn(3)
 		target := rng.Intn(ncmds)
 		flush := rng.Intn(4) == 0
-		end := rng.Intn(3) // 0: B asks while A's fetch is pending, 1: after A's fetch stored v2, 2: after A's fetch was cancelled
+		end := rng.Intn(4) // 0: B asks while A's fetch is pending, 1: after A's fetch stored v2, 2: after A's fetch was cancelled, 3: A's fetch was cancelled BEFORE the invalidation
 		store := rueidis.NewSimpleCacheAdapter(&mapCache{m: map[string]rueidis.RedisMessage{}})
 		key := fmt.Sprintf("k%d", i)
 		cmd := func(j int) string { return fmt.Sprintf("CMD%d", j) }
@@ -78,6 +80,12 @@ func storeWindow(run *mon.Run) {
 			run.Observe("store_window_second_fetch_registered_next_to_stored_reply", 1)
 		} else {
 			run.Observe("store_window_caller_joined_a_pending_fetch", 1)
+		}
+		if end == 3 { // the second fetch fails first (timeout, cancelled context, aborted EXEC); v1 stays cached until it is invalidated
+			store.Cancel(key, cmd(target), fmt.Errorf("cancelled"))
+			if v, _ := store.Flight(key, cmd(target), time.Minute, now); rueidis.VerifDump(v).Str == "v1" {
+				run.Observe("store_window_stored_reply_served_after_failed_second_fetch", 1)
+			}
 		}
 		// the invalidation of v1, in wire order after its reply
 		if flush {
